@@ -156,15 +156,17 @@ func (con *Connection) Write(b []byte) (int, error) {
 	con.writeMutex.Lock()
 	defer con.writeMutex.Unlock()
 
+	var n int
+	var err error
 	if con.getEncrypter() != nil {
-		return con.EncryptedWrite(b)
+		n, err = con.EncryptedWrite(b)
+	} else {
+		n, err = con.connection.Write(b)
 	}
-
-	n, err := con.connection.Write(b)
 	verifhook.At("conn.write.written")
 
-	// The response which finishes pair verify is sent unencrypted.
-	// All following data is encrypted.
+	// The response which finishes pair verify is sent with the current cryptographer
+	// (unencrypted when there is none). All following data is encrypted with the next one.
 	if s, ok := con.context.GetSessionForConnection(con.connection).(*session); ok {
 		s.activateNextCryptographer()
 	}
